@@ -23,8 +23,17 @@ func (r *RunResult) Replay(prop string) *Replay {
 // setup applies profile-specific executor switches.
 func setup(ex *Exec) {
 	switch ex.cfg.Profile {
-	case "C03", "C14", "C18":
+	case "C03", "C18":
 		ex.liveness = true
+	case "C14":
+		ex.liveness = true
+		ex.cl = &closeState{}
+	case "C06":
+		ex.liveness = true
+		ex.conc = &concState{}
+	}
+	if ex.cfg.Profile == "C12" && ex.cfg.Readers > 0 {
+		ex.conc = &concState{}
 	}
 }
 
